@@ -1,5 +1,6 @@
 """Contracts for C17 "in-memory indices mirror the cluster; handling waits for the initial index":
-I1 (Index/Store against an abstract view, bounded), I2/I2d/I2r (OperatorIndexers.replace/discard,
+I1 (Index/Store against an abstract view: bounded operation sequences) + I1p (the same contract as an
+inductive step over all well-formed states of a small key universe, values symbolic), I2/I2d/I2r (OperatorIndexers.replace/discard,
 index_resource: the per-indexer outcome table of docs/indexing.rst), Q7 (queueing.watcher: toggle
 clause), O1 (orchestration.spawn_missing_watchers: blocker bracket), O1t (aiotoggles.ToggleSet)."""
 import asyncio
@@ -183,7 +184,13 @@ def I2(vc):
     outcomes = Outcomes(vc, X, x_in)
     after_loop1 = spec_entries(x_in, out_x) if x_in else OLD     # loop 1 handles the ids that have outcomes
     final = spec_entries(x_in, out_x)
-    known = shape in ('dict-subclass', 'mapping')
+    nondict_mapping = shape in ('dict-subclass', 'mapping')
+
+    class _Excuse:
+        """F-C17-1 covers exactly: a non-dict Mapping result was merged by its keys (instead of {None: result})."""
+        def __bool__(self):
+            return bool(nondict_mapping and same_entries(ix.index.entries, dict(out_x.result.items())))
+    known = _Excuse()
     st = dict(done1=False, done2=False, visiting=None, phase1=0, phase2=0)
 
     def check_keys():
@@ -509,7 +516,8 @@ def I1(b):
     needs a heap model of dict-of-dict-with-reverse-map objects with aliasing (`store = items[k]`
     mutated in place) and quantified well-formedness invariants over two loops; that is out of reach
     of pyvc's proxy values (symbolic keys cannot be hashed into the real dicts), so the same contract
-    is evaluated on the real classes over the stated universe.
+    is evaluated on the real classes over the stated universe.  (I1p adds the deductive inductive step over all
+    well-formed states of a 3 x 2 key universe with symbolic values.)
     After every operation of every sequence, against a dictionary reference model of the WHOLE view:
       Index._replace(a, m): view' == {(k,a')->v in view | a' != a} + {(k,a)->v | (k,v) in m}   (other objects untouched)
       Index._discard(a):    view' == {(k,a')->v in view | a' != a}
@@ -958,3 +966,97 @@ def O1t(vc):
         vc.drive(ld_dr.fn(ts, stranger))
         vc.ensure('dropped_toggle_leaves', len(ts._toggles) == 0)
     return ('ok', n, op)
+
+
+# =============================================================================================== I1p
+def _alias_private(obj, cls, *names):
+    """The extracted method is compiled outside its class body, so `self.__x` is not name-mangled there:
+    give the real instance plain `__x` attributes that are the very same objects as its `_Cls__x` ones."""
+    for n in names:
+        setattr(obj, '__' + n, getattr(obj, f'_{cls}__{n}'))
+    return obj
+
+
+def _build_index(present, values):
+    """A real Index whose private maps are set directly (not through the methods under contract)."""
+    index = indexing.Index()
+    items, reverse = index._Index__items, index._Index__reverse
+    for (k, a), p in present.items():
+        if p:
+            store = items.get(k)
+            if store is None:
+                store = items[k] = indexing.Store()
+            store._Store__items[a] = values[(k, a)]
+            reverse.setdefault(a, set()).add(k)
+    return _alias_private(index, 'Index', 'items', 'reverse')
+
+
+@harness('I1p', targets=['kopf._core.engines.indexing.Index._replace', 'kopf._core.engines.indexing.Index._discard',
+                         'kopf._core.engines.indexing.Store._replace', 'kopf._core.engines.indexing.Store._discard'],
+         props=['C17'], clauses=['step_view_replace', 'step_view_discard', 'step_wellformed', 'store_step', 'initially_empty'],
+         canaries=['canary.view_unchanged', 'canary.nothing_removed'],
+         trusted=['key universe: 3 index keys x 2 object keys (keys are used through hash/== only); values are symbolic'],
+         max_paths=40000)
+def I1p(vc):
+    """
+    INDUCTIVE STEP of the view/wf contract (complements the bounded I1, which covers sequences <= 4):
+    for EVERY well-formed index over 3 index keys x 2 object keys (all 64 shapes by case split, all
+    stored values symbolic) and EVERY single operation -- _discard(a), or _replace(a, m) for every key
+    subset m with symbolic new values (equal to or different from the old ones) -- the result is again
+    well-formed and its whole view is  view - a  resp.  view - a + {(k,a)->m[k]}  (entries of the other
+    object unchanged).  With `initially_empty` (a new Index is empty and well-formed) this gives the
+    contract for operation sequences of any length over that key universe.  Same for Store over 2
+    object keys.  The methods are the extracted real ones; Store methods called from Index run natively.
+    """
+    KEYS, OBJS = ['k1', 'k2', 'k3'], [('ns', 'a', 'u1'), ('ns', 'b', 'u2')]
+    mode = vc.nondet(3, 'Index step / Store step / initial state')
+    if mode == 2:
+        fresh = indexing.Index()
+        vc.ensure('initially_empty', index_view(fresh) == {} and index_wellformed(fresh) and readonly_views_agree(fresh, {}))
+        fs = indexing.Store()
+        vc.ensure('initially_empty', fs._Store__items == {} and not fs and len(fs) == 0)
+        return ('initial',)
+    if mode == 1:
+        A, B = 'A', 'B'
+        store = indexing.Store()
+        model = {}
+        for a in (A, B):
+            if vc.nondet(2, f'{a} stored?') == 1:
+                model[a] = store._Store__items[a] = vc.int(f'old[{a}]')
+        _alias_private(store, 'Store', 'items')
+        if vc.nondet(2, 'discard / replace') == 0:
+            vc.load('kopf._core.engines.indexing', 'Store._discard').fn(store, A)
+            model.pop(A, None)
+        else:
+            new = vc.int('new')
+            vc.load('kopf._core.engines.indexing', 'Store._replace').fn(store, A, new)
+            model[A] = new
+        got = store._Store__items
+        vc.ensure('store_step', set(got) == set(model) and And(*[Eq(got[a], model[a]) for a in got if a in model]))
+        vc.ensure('store_step', len(store) == len(model) and bool(store) == bool(model))
+        return ('store', sorted(got))
+    present = {(k, a): vc.nondet(2, f'({k},{a[1]}) present?') == 1 for k in KEYS for a in OBJS}
+    values = {(k, a): vc.int(f'old[{k},{a[1]}]') for k in KEYS for a in OBJS}
+    index = _build_index(present, values)
+    view0 = {ka: values[ka] for ka, p in present.items() if p}
+    acc = OBJS[vc.nondet(2, 'which object')]
+    if vc.nondet(2, 'discard / replace') == 0:
+        vc.load('kopf._core.engines.indexing', 'Index._discard').fn(index, acc)
+        expected = {ka: v for ka, v in view0.items() if ka[1] != acc}
+        clause = 'step_view_discard'
+    else:
+        sub = vc.nondet(8, 'key subset of the new mapping')
+        m = {k: vc.int(f'new[{k}]') for i, k in enumerate(KEYS) if sub >> i & 1}
+        vc.load('kopf._core.engines.indexing', 'Index._replace').fn(index, acc, m)
+        expected = {ka: v for ka, v in view0.items() if ka[1] != acc}
+        expected.update({(k, acc): v for k, v in m.items()})
+        clause = 'step_view_replace'
+    view1 = index_view(index)
+    vc.ensure(clause, set(view1) == set(expected))
+    vc.ensure(clause, And(*[Eq(view1[ka], expected[ka]) for ka in view1 if ka in expected]))
+    vc.ensure(clause, all(view1[ka] is view0[ka] for ka in view1 if ka[1] != acc and ka in view0))     # the other object: untouched
+    vc.ensure('step_wellformed', index_wellformed(index))
+    vc.ensure('step_wellformed', index._Index__items is getattr(index, '__items') and index._Index__reverse is getattr(index, '__reverse'))
+    vc.canary('canary.view_unchanged', set(view1) == set(view0))
+    vc.canary('canary.nothing_removed', set(view0) <= set(view1))
+    return ('index', sorted(map(repr, view1)))
